@@ -391,14 +391,17 @@ fn run_soak(t: &[&str]) -> String {
     let okcount = Arc::new(AtomicU64::new(0));
     let mut prods = vec![];
     let acked: Arc<Mutex<Vec<Vec<usize>>>> = Arc::new(Mutex::new(vec![vec![]; nprod]));
+    let start = Arc::new(std::sync::Barrier::new(nprod));      // the producers start together: their emits overlap
     for p in 0..nprod {
         let q = q0.clone();
         let okcount = okcount.clone();
         let acked = acked.clone();
         let bad = bad.clone();
+        let start = start.clone();
         prods.push(thread::spawn(move || {
             let mut x = seed.wrapping_mul(6364136223846793005).wrapping_add(p as u64 * 1442695040888963407 + 1);
             let mut mine = vec![];
+            start.wait();
             for i in 0..nemit {
                 let m = format!("p{}.s{}:1|c", p, i);
                 let t0 = Instant::now();
